@@ -250,7 +250,18 @@ class Ctx:
 		self._bc_last = now
 		return max(self._bc, (now - self.t0) / 3)
 
-	def time_left(self, frac: float = 1.0) -> bool:
+	def time_left(self, frac: float = 1.0, min_iter: int = 8) -> bool:
+		"""True while the stream that asks may go on. Every call site (= every stream loop of a module) is granted its first `min_iter`
+		iterations whatever the clock says, so that no stream is skipped entirely on an overloaded machine (a seeded change was missed
+		that way once: C11-w4m2 at load average 276); beyond 6x the budget in wall time nothing more is started."""
+		f = sys._getframe(1)
+		key = (f.f_code.co_filename, f.f_lineno)
+		seen = self.__dict__.setdefault('_tl_calls', Counter())
+		seen[key] += 1
+		if self.elapsed() > 6 * self.budget:
+			return False
+		if seen[key] <= min_iter:
+			return True
 		return self.budget_clock() < self.budget * frac
 
 	def q(self, quick, thorough):
